@@ -24,6 +24,18 @@ P = {
  "C06": (True, "model_checking", "relational TLA+ driver specs over the Conditions machine (strict subset implication over all strictness subsets; invariance under every order reachable by adjacent swaps) model-checked by TLC; each visited pair replayed on the implementation and the relation evaluated by TLC on the two implementation results",
          "TLC checks StrictImplies and PermEq on the machine over interaction-heavy menus visiting all orders; every visited (input, permutation/strict subset) and seeded random bundles are run pairwise through parse_spends and TLC trace validation evaluates the relation between the two implementation results",
          "compared: everything but listing order and the positional ELIGIBLE_FOR_FF bit; fingerprint not computed on this path", "3 C06"),
+ "C05": (True, "model_checking", "symbolic (bag-of-signed-pairs) TLA+ model of aggregate signatures over the Conditions machine's required-pair list; TLC checks per-opcode domain separation and that every single-point tampering changes the bag; the harness signs spec-prescribed and tampered lists with real keys and TLC validates all verifier verdicts",
+         "TLC proves on the model that each AGG_SIG opcode requires message||attributes||constant and that every tampering changes the required bag; each case and random bundles are signed with real secret keys and every verdict of parse_spends (4 cache modes), run_block_generator2 and validate_clvm_and_signature must equal 'valid and signed bag = required bag'; make_aggsig_final_message must reproduce the required messages",
+         "symbolic signature model (BLS unforgeability assumed); chia_bls::sign/aggregate and blst trusted", "3 C05"),
+ "C07": (True, "model_checking", "TLA+ model of the native generator path around the interpreter (Generator.tla: guards, base cost, spend extraction, puzzle hashing, condition machine, termination, cost) with CLVM runs as logged oracle inputs; TLC explores output shapes (MC_GenShape) and validates both execution paths' results per generator (Agree relation + native vs model)",
+         "every output shape of MC_GenShape, seeded random generators and the repository's generator corpus run through BOTH run_block_generator and run_block_generator2; TLC trace validation evaluates Agree on the two results and compares the native result with Generator.tla",
+         "CLVM execution results are oracle inputs from clvmr; cost comparison only in byte-cost mode (legacy has no INTERNED_GENERATOR mode); huge outputs judged by the pair of verdicts only", "3 C07"),
+ "C08": (True, "model_checking", "TLA+ model of run_spendbundle and of generators built from a bundle (Bundle.tla: length formula, generator tree, base cost, quote overhead); TLC proves the length formula and cost delta over all amount-length classes (MC_Bundle) and validates recorded runs of the mempool path, four generator forms and both block builders",
+         "TLC proves predicted length = serialised length and the fixed quote overhead in the model; each MC bundle, random bundles and recorded test-bundles run through run_spendbundle, solution_generator(_backrefs), both block builders and run_block_generator2; TLC validates verdict/conditions equality, byte-exact plain generator, exact cost delta and builder cost = consensus cost",
+         "CLVM execution results are oracle inputs; plainly serialised reveals (premise of the property)", "3 C08"),
+ "C09": (True, "model_checking", "trusted view (removals, additions with the validation hint rule, coin spends, lookups) defined in TLA+ as a projection of the validated machine state (Generator.tla); TLC validates the outputs of every trusted helper against it for every accepted generator in the C07/C08 streams",
+         "for every accepted generator: additions_and_removals, get_coinspends_for_trusted_block (+ rebuilt generator re-validated), get_coinspends_with_conditions_for_trusted_block, get_puzzle_and_solution_for_coin (members and a non-member) and SpendBundle::additions are compared by TLC with the projection of the validated conditions",
+         "CLVM execution results are oracle inputs; three defects found by this check were repaired (see known_findings.json)", "3 C09"),
 }
 ORDER = ["C%02d" % i for i in range(1, 21)]
 PENDING_REASON = "check not built yet in this round (construction order DESIGN section 8); no claim is made"
